@@ -158,8 +158,18 @@ func checkMassiveState(r *evid.Run, pool *wproto.Pool, d *DocState, c *tok.Conc,
 			rq.Op, rq.Strict, rq.Branches = "verify", true, nil
 			rq.PreDoc = doc // the directories exist iff the simple mkdir accepts the document
 			if repeated {
-				// (the simple mkdir stops at the second block of a repeated root: the first block's tree is there)
-				rq.Strict, rq.PreLoose = false, true
+				// the directory holds the tree of the FIRST block of every root name only: what a later block of the same
+				// name adds is missing, and both modes have to say so
+				first := ""
+				seen := map[string]bool{}
+				for _, t := range d.Forest {
+					k := strings.Join(t.Name, " ")
+					if !seen[k] {
+						first += canonDocTree(t, c)
+					}
+					seen[k] = true
+				}
+				rq.Strict, rq.PreLoose, rq.PreDoc = false, true, first
 			}
 		}
 		simple := pool.Call(rq, 30*time.Second)
